@@ -474,8 +474,16 @@ def impl_observe(data, strq, addrq, rec=None):
     try:
         f = ELFFile(io.BytesIO(data))
         secs = [f.get_section(i) for i in range(f.num_sections())]
+        def data_of(i, s):
+            # data() may be called again on one Section object — also after it raised.  For every second section
+            # (content-derived) the OBSERVED answer is that of the second call: it must be what a first call gives
+            # (a seeded cache filled before the size check made a retry return the wrong-sized bytes).
+            first = run_impl(lambda: {'b': s.data().hex()})
+            if (i + len(data)) % 2:
+                return first
+            return run_impl(lambda: {'b': s.data().hex()})
         sections = [{'compressed': bool(s.compressed), 'size': s.data_size, 'align': s.data_alignment,
-                     'data': run_impl(lambda: {'b': s.data().hex()})} for s in secs]
+                     'data': data_of(i, s)} for i, s in enumerate(secs)]
         strings = []
         for i, off in strq:
             if i >= len(secs):
